@@ -859,3 +859,203 @@ CF_UNIT = Unit("C18.Context._format.tail", CF, cf_tail_setup, body_of=cf_select_
 UNITS = [SS_UNIT, FC_UNIT, FP_UNIT, cs_unit(), SA_UNIT, FF_UNIT, FSTR_UNIT, SF_UNIT, FF2_UNIT]
 
 UNITS += [CF_HEAD_UNIT, CF_UNIT]
+
+
+# ------------------------------------------------------------------------------------------------ small text helpers (C18 / C19)
+def hdr_setup(ex, p):
+    self = sym_ref(p, "self", "Stack")
+    p.env["self"] = self
+    return dict(self=self)
+
+
+def hdr_post(ctx):
+    root = ctx.H0.getf(ctx.args["self"].t, "root")
+    r = strval(Val.a(ctx.result.t))
+    # the root is named whenever there is one, however it answers bool()
+    return If(Val.is_none(root), r == StringVal("stackscope.Stack (most recent call last):\n"),
+              r == Concat(StringVal("stackscope.Stack of "), repr_of(root), StringVal(" (most recent call last):\n")))
+
+
+HDR_UNIT = Unit("C19.Stack._format_header", TY + "Stack._format_header", hdr_setup, post=[Clause("C19.header_names_the_root_iff_there_is_one", hdr_post)],
+                allowed_raise=lambda ctx: BoolVal(False), **{**COMMON, "options": dict(COMMON.get("options", {}), strings=True)})
+
+
+def nat_setup(ex, p):
+    self = sym_ref(p, "self", "Context")
+    vn = p.getf(self.t, "varname")
+    p.pc.append(Or(Val.is_none(vn), And(is_exact_kind(vn, "str"), Val.a(vn) >= 0)))
+    p.env["self"] = self
+    return dict(self=self)
+
+
+typename_of = Function("type(x).__name__", Val, z3.StringSort())
+
+
+def nat_post(ctx):
+    a = ctx.args
+    obj, vn = ctx.H0.getf(a["self"].t, "obj"), ctx.H0.getf(a["self"].t, "varname")
+    r = strval(Val.a(ctx.result.t))
+    vtxt = If(Or(Val.is_none(vn), z3.Length(strval(Val.a(vn))) == 0), StringVal("_"), strval(Val.a(vn)))
+    # "<name or _>: <type name>" iff there IS a manager object (whatever its truth value), the bare name iff there is none
+    return If(Not(Val.is_none(obj)), z3.PrefixOf(Concat(vtxt, StringVal(": ")), r),
+              If(Not(Val.is_none(vn)), r == strval(Val.a(vn)), r == StringVal("")))
+
+
+def nat_unit():
+    def m_name(ex, p, obj):
+        return [("ok", p, SV(fresh("typename"), ty="str"))]
+    return Unit("C18.Context._name_and_type", TY + "Context._name_and_type", nat_setup,
+                post=[Clause("C18.name_and_type.names_the_type_iff_there_is_an_object", nat_post)],
+                allowed_raise=lambda ctx: BoolVal(False),
+                **{**COMMON, "props": {**PROPS, ("*", "__name__"): m_name}, "options": dict(COMMON.get("options", {}), strings=True)},
+                assumptions=["type(obj).__name__ is some str"])
+
+
+NAT_UNIT = nat_unit()
+
+
+# format_flat: header, then the stdlib rendering of the summary iff there are frames, then the leaf line iff there is a leaf, then
+# the error lines iff there is an error
+summary_of = Function("Stack.as_stdlib_summary", Val, Val, Val)
+summary_format = Function("StackSummary.format", Val, Val)
+
+
+def flat_setup(ex, p):
+    self = sym_ref(p, "self", "Stack")
+    fr = typed_seq(p, self, "frames", "Frame")
+    sc = sym_bool(p, "show_contexts")
+    p.env.update(self=self, show_contexts=sc)
+    def m_hdr(ex_, p_, args, kw, node):
+        h = header_of(args[0].t)
+        p_.pc += [is_exact_kind(h, "str"), Val.a(h) >= 0]
+        return [("ok", p_, SV(h, ty="str"))]
+    def m_summary(ex_, p_, args, kw, node):
+        if len(args) != 1 or set(kw) != {"show_contexts"}:
+            raise Unsupported("as_stdlib_summary call shape in format_flat")
+        return [("ok", p_, SV(summary_of(args[0].t, kw["show_contexts"].t), ty="StackSummary"))]
+    def m_sformat(ex_, p_, args, kw, node):
+        return [("ok", p_, abstract_lines(p_, summary_format(args[0].t), ex_.unit_args["HB"]))]
+    def m_err(ex_, p_, args, kw, node):
+        return [("ok", p_, abstract_lines(p_, error_lines(args[0].t), ex_.unit_args["HB"]))]
+    ex.unit.methods.update({("Stack", "_format_header"): m_hdr, ("Stack", "as_stdlib_summary"): m_summary, ("StackSummary", "format"): m_sformat,
+                            ("Stack", "_format_error"): m_err})
+    ex.unit_args = dict(self=self, frames=fr, sc=sc, HB=p.snap())
+    return ex.unit_args
+
+
+def flat_post(ctx):
+    a = ctx.args
+    H, HB = ctx.H, a["HB"]
+    r = ctx.result.t
+    has_frames = HB.length(a["frames"].t) > 0
+    leaf, err = HB.getf(a["self"].t, "leaf"), HB.getf(a["self"].t, "error")
+    sf = summary_format(summary_of(a["self"].t, a["sc"].t))
+    el = error_lines(a["self"].t)
+    n_s = If(has_frames, HB.length(sf), 0)
+    n_l = If(Val.is_none(leaf), 0, 1)
+    j, k = fresh_int("js"), fresh_int("ke")
+    leafline = ctx.p.read(r, 1 + n_s, H)
+    return And(H.lo_(r) == 0, H.length(r) == 1 + n_s + n_l + If(Val.is_none(err), 0, HB.length(el)),
+               ctx.p.read(r, 0, H) == header_of(a["self"].t),
+               Implies(And(has_frames, j >= 0, j < HB.length(sf)), ctx.p.read(r, 1 + j, H) == HB.raw(sf, j)),
+               Implies(Not(Val.is_none(leaf)), And(is_exact_kind(leafline, "str"),
+                                                     strval(Val.a(leafline)) == Concat(StringVal("  Target of innermost frame: "), repr_of(leaf), StringVal("\n")))),
+               Implies(And(Not(Val.is_none(err)), k >= 0, k < HB.length(el)), ctx.p.read(r, 1 + n_s + n_l + k, H) == HB.raw(el, k)))
+
+
+FLAT_UNIT = Unit("C19.Stack.format_flat", TY + "Stack.format_flat", flat_setup,
+                 post=[Clause("C19.format_flat.header_summary_leaf_error_in_this_order", flat_post)],
+                 allowed_raise=lambda ctx: BoolVal(False),
+                 **{**COMMON, "options": dict(COMMON.get("options", {}), strings=True, iter_any_seq=True)},
+                 assumptions=["_format_header / as_stdlib_summary / StackSummary.format / _format_error are abstract (own units or the traceback module)"])
+
+
+# ------------------------------------------------------------------------------------------------ Stack._format_error (generator)
+# yields the heading, then for every chunk of traceback.format_exception(type(err), err, err.__traceback__) other than the banner,
+# every line of chunk.splitlines(True) with two spaces in front, in order, and nothing else
+FE = TY + "Stack._format_error"
+fe_chunks = Function("traceback.format_exception", Val, Val)       # (the error) -> list of str chunks (stdlib: abstract)
+split_of = Function("str.splitlines(True)", Val, Val)              # (chunk) -> list of str lines (stdlib: abstract)
+BANNER = "Traceback (most recent call last):\n"
+
+
+def fe_setup(ex, p):
+    self = sym_ref(p, "self", "Stack")
+    err = sym_ref(p, "error", "exception")
+    p.setf(self.t, "error", err.t)
+    p.env["self"] = self
+    HB = p.snap()
+    def m_fe(ex_, p_, args, kw, node):
+        sp = args[0].get("special") if args else None
+        ok = len(args) == 3 and not kw and sp is not None and sp[0] == "type"
+        p_.ghost["fe_call"] = (BoolVal(False) if not ok else
+                               And(sp[1].t == err.t, args[1].t == err.t, args[2].t == HB.getf(err.t, "__traceback__")))
+        return [("ok", p_, abstract_lines(p_, fe_chunks(args[1].t if len(args) > 1 else NONE), HB))]
+    def m_split(ex_, p_, args, kw, node):
+        keep = len(args) == 2 and not kw
+        p_.ghost["fe_keepends"] = And(Val.is_boolv(args[1].t), Val.b(args[1].t)) if keep else BoolVal(False)
+        return [("ok", p_, abstract_lines(p_, split_of(args[0].t), HB))]
+    ex.unit.bindings["traceback.format_exception"] = m_fe
+    ex.unit.methods[("str", "splitlines")] = m_split
+    ex.unit_args = dict(self=self, err=err, HB=HB)
+    return ex.unit_args
+
+
+def fe_outer_inv():
+    def setup(ctx):
+        ctx.p.ghost["fe_pre"] = list(ctx.p.yielded)          # what was yielded before the loop: the heading
+        ctx.p.ghost["fe_iter"] = ctx.seq.t
+    def ghost_havoc(ctx):
+        ctx.p.yielded = []
+        ctx.p.ghost.pop("fe_inner", None)
+    def step(ctx):
+        a = ctx.ex.unit_args
+        line = ctx.v("line")
+        is_banner = strval(Val.a(line)) == StringVal(BANNER)
+        inner = ctx.p.ghost.get("fe_inner")
+        if inner is None:
+            # the inner loop was not reached in this iteration: allowed exactly for the banner, and nothing may be yielded
+            return And(is_banner, BoolVal(not ctx.p.yielded))
+        return And(Not(is_banner), inner == split_of(line), ctx.p.ghost.get("fe_keepends", BoolVal(False)), BoolVal(not ctx.p.yielded))
+    return Inv("C18.format_error.chunks", qf=lambda ctx: BoolVal(True), setup=setup, ghost_havoc=ghost_havoc,
+               steps=[("C18.format_error.chunk_iteration", step)], header="traceback.format_exception")
+
+
+def fe_inner_inv():
+    def setup(ctx):
+        ctx.p.ghost["fe_inner"] = ctx.seq.t
+        ctx.p.ghost["fe_inner_pre"] = BoolVal(not ctx.p.yielded)
+    def ghost_havoc(ctx):
+        ctx.p.yielded = []
+    def step(ctx):
+        out = segs(ctx.p)
+        if len(out) != 1 or out[0][0] != "one":
+            return BoolVal(False)
+        t = out[0][1]
+        return And(is_exact_kind(t, "str"), strval(Val.a(t)) == Concat(StringVal("  "), strval(Val.a(ctx.v("subline")))),
+                   ctx.p.ghost.get("fe_inner_pre", BoolVal(False)))
+    return Inv("C18.format_error.lines_of_chunk", qf=lambda ctx: BoolVal(True), setup=setup, ghost_havoc=ghost_havoc,
+               steps=[("C18.format_error.each_line_indented_by_two", step)], header="splitlines")
+
+
+def fe_post(ctx):
+    a = ctx.args
+    pre = ctx.p.ghost.get("fe_pre")
+    if pre is None or len(pre) != 1 or pre[0].get("all_of") is not None or ctx.p.yielded:
+        return BoolVal(False)
+    h = pre[0].t
+    return And(is_exact_kind(h, "str"), strval(Val.a(h)) == StringVal("  Error while extracting stack:\n"),
+               ctx.p.ghost.get("fe_call", BoolVal(False)), ctx.p.ghost.get("fe_iter") == fe_chunks(a["err"].t))
+
+
+FE_UNIT = Unit("C18.Stack._format_error", FE, fe_setup,
+               post=[Clause("C18.format_error.heading_then_chunks_of_the_recorded_error", fe_post, on=("return", "normal"))],
+               invariants={(FE, "for#1"): fe_outer_inv(), (FE, "for#2"): fe_inner_inv()},
+               allowed_raise=lambda ctx: BoolVal(False),
+               **{**COMMON, "options": dict(COMMON.get("options", {}), strings=True, iter_any_seq=True)},
+               assumptions=["traceback.format_exception and str.splitlines(True) are abstract: some list of str each (stdlib)",
+                            "precondition self.error is not None (both call sites test it; Stack._format / format_flat units)",
+                            "generator cut: each clause constrains what ONE iteration yields; that the output is the concatenation over "
+                            "iterations is the meaning of the loop, not a separate obligation"])
+
+UNITS += [HDR_UNIT, NAT_UNIT, FLAT_UNIT, FE_UNIT]
